@@ -246,10 +246,17 @@ class UserAttributeSubPackets(SubPackets):
     """
     _spmodule = userattribute
 
+    def __init__(self):
+        super(UserAttributeSubPackets, self).__init__()
+        # id(subpacket) -> (subpacket, its octets exactly as received)
+        self._received = {}
+
     def __bytearray__(self):
         _bytes = bytearray()
         for uhsp in self._unhashed_sp.values():
-            _bytes += uhsp.__bytearray__()
+            # a received attribute subpacket is hashed and re-emitted as it was on the wire
+            received = self._received.get(id(uhsp))
+            _bytes += received[1] if received is not None else uhsp.__bytearray__()
         return _bytes
 
     def __len__(self):  # pragma: no cover
@@ -259,8 +266,10 @@ class UserAttributeSubPackets(SubPackets):
         # parse just one packet and add it to the unhashed subpacket ordereddict
         # I actually have yet to come across a User Attribute packet with more than one subpacket
         # which makes sense, given that there is only one defined subpacket
+        before = bytes(packet)
         sp = UserAttribute(packet)
         self[sp.__class__.__name__] = sp
+        self._received[id(sp)] = (sp, bytearray(before[:len(before) - len(packet)]))
 
 
 class Signature(MPIs):
